@@ -96,7 +96,18 @@ def make_case(g, s_rules, t_rules, roots):
     S_ref = Schema([rc.build_rule(x) for x in s_rules])
     impl_states = []
     calls = []
+    # the document judged at the end; in half of the histories S (and T) have already validated it before and
+    # between the additions: an addition takes effect whatever S was asked before
+    doc, _ = grow_doc(g, roots[0], t_rules, s_rules)
+    used_before = r.random() < 0.5
+    if used_before:
+        lines.insert(3, f"doc = {doc!r}\nS.validate(doc); T.validate(doc)   # asked before the additions")
+        lines[-1] = "print(S.validate(doc).is_valid, S.validate(doc).num_failures, len(S.rules))"
+        c.py = "\n".join(lines)
     for root in roots:
+        if used_before:
+            enc.outcome(lambda: S.validate(copy.deepcopy(doc)))
+            enc.outcome(lambda: T.validate(copy.deepcopy(doc)))
         rp = DP.DataPath(*root)
         o = enc.outcome(lambda: S.add_schema(T, rp))
         if o[0] != "ok":
@@ -137,7 +148,6 @@ def make_case(g, s_rules, t_rules, roots):
     if len(S.rules) != len(s_rules) + len(t_rules) * len(roots):
         c.fail("rule_count", f"S has {len(S.rules)} rules, expected {len(s_rules) + len(t_rules) * len(roots)}")
     # judgement: S' = S plus T's judgement of what lies at each root
-    doc, _ = grow_doc(g, roots[0], t_rules, s_rules)
     vs = enc.outcome(lambda: val_summary(S.validate(copy.deepcopy(doc))))
     v0 = enc.outcome(lambda: val_summary(S_ref.validate(copy.deepcopy(doc))))
     if vs[0] != "ok" or v0[0] != "ok":
@@ -170,6 +180,7 @@ def make_case(g, s_rules, t_rules, roots):
         c.fail("judgement", f"S' judges {got!r:.300} but S plus T-at-R gives {want!r:.300}")
     c.nontrivial = len(t_rules) > 0 and got[2] > 0
     c.features.add((min(len(s_rules), 3), min(len(t_rules), 3), len(roots), got[0]))
+    c.features.add(("validated_before_additions", used_before))
     return c
 
 
